@@ -51,7 +51,7 @@ Definition vroles (v : verdict) : list rgrant := match v with Ok _ _ r => r | Re
 Definition accepted (v : verdict) : bool := match v with Ok _ _ _ => true | Reject _ => false end.
 
 (* which tree: see Switch.v *)
-Record switches := mkSw { sw_leaf : bool; sw_rej : bool }.
+Record switches := mkSw { sw_leaf : bool; sw_rej : bool; sw_inval : bool }.
 (* the role grants getResyncedDocument applies: on a rejection the unrepaired code keeps the [roles] map
    returned together with the error; the repair (sw_rej) clears it like [access] *)
 Definition rroles (fx : switches) (v : verdict) : list rgrant :=
@@ -287,13 +287,15 @@ Section Model.
     flat_map (fun op => match op with PWrite w => [w] | PLoad _ => [] end) ops.
 
   (* ResyncManagerDCP.invalidatePrincipals (resync of all collections).  [ifixed]: Switch.regen_inval_fixed *)
-  Definition finish (ifixed regen : bool) (changed : N) (ps : princs) : princs :=
+  (* [sw_inval fixed]: Switch.always_inval_fixed -- the repaired function invalidates after EVERY completed run, the
+     function as found only when docs_changed > 0 *)
+  Definition finish (fixed : switches) (ifixed regen : bool) (changed : N) (ps : princs) : princs :=
     if regen && negb ifixed then ps                       (* updateAllPrincipalsSequences; return nil *)
-    else if 0 <? changed then invalidate_all ps else ps.
+    else if sw_inval fixed || (0 <? changed) then invalidate_all ps else ps.
 
   Definition run (sync : body -> verdict) (fixed : switches) (ifixed regen : bool) (alloc : list N) (db : list doc) (ps : princs)
     : list doc * N * princs :=
-    let (db', n) := resync_db sync fixed regen alloc db in (db', n, finish ifixed regen n ps).
+    let (db', n) := resync_db sync fixed regen alloc db in (db', n, finish fixed ifixed regen n ps).
 End Model.
 
 Arguments mkLeaf {body}. Arguments l_rev {body}. Arguments l_body {body}. Arguments l_del {body}. Arguments l_chans {body}.
